@@ -4,8 +4,14 @@ Types (immutable tuples):
   ('sc', key)              scalar, key into SC
   ('bf', key, width)       bit-field member (struct/union members only)
   ('arr', elem, n)         n None = unknown bound (top level) or flexible array member (last struct member)
-  ('st', ((name, ty), ..)) name None = anonymous struct/union member
-  ('un', ((name, ty), ..))
+  ('st', ((name, ty), ..)[, attrs]) name None = anonymous struct/union member
+  ('un', ((name, ty), ..)[, attrs])
+       attrs (optional, sorted tuple) describe what 6.7.9 does NOT look at - they change the layout/declaration only:
+         ('packed',)                 __attribute__((packed)) on the struct/union
+         ('al', idx, n)              member idx is declared with _Alignas(n)
+         ('ubf', idx, key, width)    an UNNAMED bit-field `T :width;` is declared before member idx (idx == number of
+                                     members: after the last one).  6.7.9p9: unnamed members do not participate in
+                                     initialization, so the model never sees them: they exist in decl() only.
 
 Initializers (mutable, thawed from the generator's tuples):
   {'k':'a', 'style':..}                      assignment-expression (text/value filled in when it lands on a leaf)
@@ -50,17 +56,40 @@ SC = {
 CHARLIKE = {'char': '', 'schar': '', 'uchar': '', 'ushort': 'u', 'uint': 'U', 'int': 'L'}
 
 # address constants: text (with FN() names of the unit's globals) -> (base id, byte offset)
-BASES = ['gi', 'ga', 'gs', 'gc', 'fn0', 'fn1']      # int gi; int ga[4]; struct{int k; int m; int n[2];} gs; char gc[8]; fns
+# int gi; int ga[4]; struct{int k; int m; int n[2];} gs; char gc[8]; fns; int gm[2][3]
+BASES = ['gi', 'ga', 'gs', 'gc', 'fn0', 'fn1', 'gm']
+BASE_SIZES = [4, 16, 16, 8, 1, 1, 24]
+STR = 'str'         # pseudo base: a string literal; "offset" = index into the literal; identified by content
+# (text, base, offset[, form flag]).  The FIRST EIGHT of every list are what the 'plain' atom style rotates over (kept as
+# they were); the 'pa' style names any entry explicitly (address-constant family of the check: every form everywhere).
+# %s in a text is replaced by a string literal whose content is unique to the atom.
 PTR_ATOMS = {
     'pint': [('&FN(gi)', 0, 0), ('&FN(ga)[2]', 1, 8), ('FN(ga)+1', 1, 4), ('&FN(gs).m', 2, 4), ('FN(ga)', 1, 0),
-             ('&FN(gs).n[1]', 2, 12), ('&FN(ga)[4]-1', 1, 12), ('FN(gs).n', 2, 8)],
+             ('&FN(gs).n[1]', 2, 12), ('&FN(ga)[4]-1', 1, 12), ('FN(gs).n', 2, 8),
+             ('&FN(gm)[1][2]', 6, 20, 'subarray-address'), ('FN(gm)[1]+1', 6, 16, 'subarray-address'),
+             ('*FN(gm)+4', 6, 16, 'subarray-address'), ('FN(gm)[1]', 6, 12, 'subarray-address'),
+             ('&(&FN(gs))->m', 2, 4), ('&*FN(ga)+3', 1, 12), ('(int*)FN(gc)+1', 3, 4)],
     'pchar': [('(char*)&FN(gs)+3', 2, 3), ('FN(gc)+2', 3, 2), ('&FN(gc)[1]', 3, 1), ('(char*)FN(ga)+5', 1, 5),
-              ('FN(gc)', 3, 0), ('(char*)&FN(gs).m+1', 2, 5), ('&FN(gc)[7]-3', 3, 4), ('(char*)(FN(ga)+1)', 1, 4)],
+              ('FN(gc)', 3, 0), ('(char*)&FN(gs).m+1', 2, 5), ('&FN(gc)[7]-3', 3, 4), ('(char*)(FN(ga)+1)', 1, 4),
+              ('%s', STR, 0, 'strlit-address'), ('%s+1', STR, 1, 'strlit-address'), ('&%s[2]', STR, 2, 'strlit-address'),
+              ('(char*)FN(gm)[1]+1', 6, 13, 'subarray-address'), ('(char*)&FN(gm)[1][1]', 6, 16, 'subarray-address')],
     'pvoid': [('&FN(gs)', 2, 0), ('&FN(gi)', 0, 0), ('(char*)&FN(gs)+2', 2, 2), ('&FN(ga)[3]', 1, 12),
-              ('FN(gc)+5', 3, 5), ('&FN(gs).n', 2, 8), ('(void*)&FN(ga)[1]', 1, 4), ('FN(ga)', 1, 0)],
+              ('FN(gc)+5', 3, 5), ('&FN(gs).n', 2, 8), ('(void*)&FN(ga)[1]', 1, 4), ('FN(ga)', 1, 0),
+              ('%s', STR, 0, 'strlit-address'), ('&FN(gm)[1]', 6, 12), ('FN(gm)+1', 6, 12),
+              ('&FN(gm)[0][1]', 6, 4, 'subarray-address'), ('FN(gm)[1]', 6, 12, 'subarray-address')],
     'pfn': [('FN(fn0)', 4, 0), ('&FN(fn1)', 5, 0), ('FN(fn1)', 5, 0), ('&FN(fn0)', 4, 0), ('*FN(fn0)', 4, 0),
-            ('FN(fn1)', 5, 0), ('FN(fn0)', 4, 0), ('&FN(fn1)', 5, 0)],
+            ('FN(fn1)', 5, 0), ('FN(fn0)', 4, 0), ('&FN(fn1)', 5, 0),
+            ('(int(*)(void))FN(fn1)', 5, 0), ('**FN(fn0)', 4, 0), ('&*FN(fn1)', 5, 0)],
 }
+NPLAIN = 8
+
+
+def str_hash(text):
+    """Content code of a string literal seen through a pointer (same function in the driver's pdec)."""
+    h = 0
+    for c in text[:8]:
+        h = (h * 31 + ord(c)) % 900001
+    return 9000000 + h
 
 
 def ptr_code(base, off):
@@ -68,6 +97,10 @@ def ptr_code(base, off):
 
 
 # ---- types ---------------------------------------------------------------
+def attrs(t):
+    return t[2] if len(t) > 2 else ()
+
+
 def decl(t, inner):
     k = t[0]
     if k == 'sc':
@@ -76,8 +109,19 @@ def decl(t, inner):
         return (SC[t[1]][3] % inner) + ":%d" % t[2]
     if k == 'arr':
         return decl(t[1], "%s[%s]" % (inner, "" if t[2] is None else t[2]))
-    body = "".join(decl(mt, n or "") + "; " for n, mt in t[1])
-    return "%s { %s} %s" % ("struct" if k == 'st' else "union", body, inner)
+    at = attrs(t)
+    al = {a[1]: a[2] for a in at if a[0] == 'al'}
+    body = ""
+    for i, (n, mt) in enumerate(t[1]):
+        for a in at:
+            if a[0] == 'ubf' and a[1] == i:
+                body += (SC[a[2]][3] % "") + ":%d; " % a[3]
+        body += ("_Alignas(%d) " % al[i] if i in al else "") + decl(mt, n or "") + "; "
+    for a in at:
+        if a[0] == 'ubf' and a[1] >= len(t[1]):
+            body += (SC[a[2]][3] % "") + ":%d; " % a[3]
+    return "%s %s{ %s} %s" % ("struct" if k == 'st' else "union", "__attribute__((packed)) " if ('packed',) in at else "",
+                              body, inner)
 
 
 def sub_ty(t, i):
@@ -210,6 +254,8 @@ def conv(t, v, st):
     if isinstance(v, tuple):
         if kind != 'ptr':
             raise Invalid("pointer to non-pointer")
+        if v[1] == STR:
+            return v[2]
         return ptr_code(v[1], v[2])
     if kind == 'ptr':
         if v != 0:
@@ -245,10 +291,24 @@ def assign_atom(a, t, st):
     kind = SC[t[1]][0]
     base = 11 + n
     style = a.get('style', 'plain')
-    if style == 'plain':
+    if style == 'plain' or style[0] == 'pa':
         if kind == 'ptr':
-            txt, b, off = PTR_ATOMS[t[1]][(n + st.salt) % 8]
-            a['text'], a['val'] = txt, ('p', b, off)
+            if style == 'plain':
+                ent = PTR_ATOMS[t[1]][(n + st.salt) % NPLAIN]
+            elif style[1] < len(PTR_ATOMS[t[1]]):
+                ent = PTR_ATOMS[t[1]][style[1]]
+            else:
+                raise Invalid("no such address constant for this pointer type")
+            txt, b, off = ent[:3]
+            if len(ent) > 3:
+                st.flags.add(ent[3])
+            if b == STR:
+                lit = "s%dzq" % n
+                a['text'], a['val'] = txt % ('"%s"' % lit), ('p', STR, str_hash(lit[off:]))
+            else:
+                a['text'], a['val'] = txt, ('p', b, off)
+        elif style != 'plain':
+            raise Invalid("address constant for a non-pointer")
         elif kind == 'flt' and n % 2 == 0:
             a['text'], a['val'] = "%d.5" % base, Fraction(2 * base + 1, 2)
         else:
